@@ -14,6 +14,7 @@ import (
 	"path/filepath"
 	"sort"
 	"strings"
+	"syscall"
 	"testing"
 
 	"golang.org/x/telemetry/godev/internal/storage"
@@ -204,7 +205,7 @@ func expectedCharts(reps []*wreport) map[string]int {
 func TestVerifC13(t *testing.T) {
 	const check = "C13.worker"
 	res := verifrt.NewResult(check)
-	res.Rule = "per case: 1-6 consecutive days with 0-40 stored reports each (0-3 programs with bucketed counters, duplicate X within and across days, a few reports just under the 100 KiB upload limit through long stack names or fields), merged through the real /merge handler and charted through /chart for the whole range, sub-ranges and a range containing a day that was never merged; after that a stored report is replaced under the same name (usually by a much smaller one), sometimes another arrives, and the day is merged and the range charted again (twice, restoring the set in between); the same set is stored twice more in different creation orders and charted 3 times in one process. Oracle: merged object has one JSON line per stored object decoding to the stored report; NumReports = reports in range; every partition datum = number of distinct X carrying that (program, chart, bucket), zero data are really zero, omitted charts really empty; chart bytes identical across orders and repetitions; missing day => 404 and no chart object. distinct = distinct report sets; non-trivial = >= 2 reports"
+	res.Rule = "per case: 1-6 consecutive days with 0-40 stored reports each (0-3 programs with bucketed counters, duplicate X within and across days, a few reports just under the 100 KiB upload limit through long stack names or fields), merged through the real /merge handler (a day with 300 reports under a file-descriptor limit of 64 above what is open) and charted through /chart for the whole range, sub-ranges and a range containing a day that was never merged; all single days and the whole range are also charted by overlapping requests (three rounds), each judged against its own range; after that a stored report is replaced under the same name (usually by a much smaller one), sometimes another arrives, and the day is merged and the range charted again (twice, restoring the set in between); the same set is stored twice more in different creation orders and charted 3 times in one process. Oracle: merged object has one JSON line per stored object decoding to the stored report; NumReports = reports in range; every partition datum = number of distinct X carrying that (program, chart, bucket), zero data are really zero, omitted charts really empty; chart bytes identical across orders and repetitions; missing day => 404 and no chart object. distinct = distinct report sets; non-trivial = >= 2 reports"
 	base := vtmp("c13-")
 	defer os.RemoveAll(base)
 	n := verifrt.Scale(150, 4000)
@@ -221,6 +222,9 @@ func TestVerifC13(t *testing.T) {
 		for d := 0; d < ndays; d++ {
 			ds := dayStr(day0 + int64(d))
 			nr := verifrt.Pick(rnd, []int{0, 1, 2, 5, 12, 40})
+			if i%25 == 7 && d == 0 {
+				nr = 300 // more reports than the merge may keep open at once (see the descriptor limit below)
+			}
 			for k := 0; k < nr; k++ {
 				rep := genWReport(rnd, ds, xs)
 				// the upload handler names objects by week and X: the same X on one day is one object
@@ -258,6 +262,16 @@ func TestVerifC13(t *testing.T) {
 			ok := true
 			for d := 0; d < ndays && ok; d++ {
 				ds := dayStr(day0 + int64(d))
+				if len(byDay[ds]) >= 200 && order == 0 {
+					// "any number of reports": the merge may not need resources in
+					// proportion to the number of stored reports. Leave it 64 file
+					// descriptors beyond what the process has open now.
+					restore := c13LimitFDs(64)
+					ok = mergeAndJudge(res, e, ds, byDay[ds], rp)
+					restore()
+					res.Hit("merge-under-descriptor-limit")
+					continue
+				}
 				ok = mergeAndJudge(res, e, ds, byDay[ds], rp)
 			}
 			if !ok {
@@ -328,6 +342,43 @@ func TestVerifC13(t *testing.T) {
 						judgeChart(res, cb, sub, rp)
 						res.Hit("sub-range")
 					}
+				}
+			}
+			if ok && order == 0 && ndays >= 2 {
+				// overlapping chart requests for different ranges on the same handler
+				type creq struct {
+					q, name string
+					reps    []*wreport
+				}
+				var reqs []creq
+				for d := 0; d < ndays; d++ {
+					ds := dayStr(day0 + int64(d))
+					reqs = append(reqs, creq{"/chart/?date=" + ds, ds + ".json", byDay[ds]})
+				}
+				reqs = append(reqs, creq{q, start + "_" + end + ".json", all})
+				for rep := 0; rep < 3 && ok; rep++ {
+					sts := make([]int, len(reqs))
+					done := make(chan int, len(reqs))
+					for k := range reqs {
+						go func(k int) {
+							sts[k], _ = e.get(reqs[k].q)
+							done <- k
+						}(k)
+					}
+					for range reqs {
+						<-done
+					}
+					for k, r := range reqs {
+						if sts[k] != 200 {
+							res.Violate("chart-failed", fmt.Sprintf("chart %s answered %d while other ranges were being charted", r.q, sts[k]), rp)
+							ok = false
+							break
+						}
+						if cb, err := os.ReadFile(filepath.Join(e.root, "charted", r.name)); err == nil {
+							judgeChart(res, cb, r.reps, rp)
+						}
+					}
+					res.Hit("concurrent-chart-requests")
 				}
 			}
 			if ok && order == 0 && len(all) > 0 {
@@ -424,10 +475,35 @@ func TestVerifC13(t *testing.T) {
 			res.Sample(map[string]any{"case": i, "days": ndays, "reports": len(all), "first_day": dayStr(day0)})
 		}
 	}
-	res.Require("re-merge-after-replacement", "merged-line>64KiB", "duplicate-X", "missing-day", "sub-range", "semver-equal-versions")
+	res.Require("merge-under-descriptor-limit", "concurrent-chart-requests", "re-merge-after-replacement", "merged-line>64KiB", "duplicate-X", "missing-day", "sub-range", "semver-equal-versions")
 	if err := res.Write(); err != nil {
 		t.Fatal(err)
 	}
+}
+
+// c13LimitFDs lowers the soft limit on open files to what is open now plus
+// extra and returns a func restoring it.
+func c13LimitFDs(extra int) func() {
+	var old syscall.Rlimit
+	if err := syscall.Getrlimit(syscall.RLIMIT_NOFILE, &old); err != nil {
+		return func() {}
+	}
+	ents, _ := os.ReadDir("/proc/self/fd")
+	maxfd := 0
+	for _, e := range ents {
+		var n int
+		fmt.Sscan(e.Name(), &n)
+		if n > maxfd {
+			maxfd = n
+		}
+	}
+	lim := old
+	lim.Cur = uint64(maxfd + 1 + extra)
+	if lim.Cur > old.Cur {
+		return func() {}
+	}
+	syscall.Setrlimit(syscall.RLIMIT_NOFILE, &lim)
+	return func() { syscall.Setrlimit(syscall.RLIMIT_NOFILE, &old) }
 }
 
 // mergeAndJudge merges day ds through the handler and compares the merged
